@@ -42,6 +42,22 @@ CLAIMED = {
             "Theorems C09_sections/C09_files/C09_section_*/C09_layout hold for every body and every list of attachments of arbitrary bytes. PARTIAL: the header block (net/textproto.ReadMIMEHeader, modelled) and the full statement C09_roundtrip_statement are decided per run: API-built messages (all address forms, Latin-1 subjects and file names, any minute, 0..4 attachments, X- headers) are serialised and parsed by code and model through whole, 1-byte and random-chunk readers, with parse(serialise m) = m, canonical re-serialisation and the accessors checked on the implementation.",
             "mime.QEncoding/WordDecoder, go-charset, time.Parse (beyond the four Winlink layouts) and textproto are library code: modelled or passed through; the known finding 'subject with outer white space is trimmed' is reported as KNOWN-FINDING.",
             "DESIGN.md section 6 C09"),
+    "C01": ("Coq proofs of the codecs of the exchange for all inputs (frame round trip, block order/size, block checksum, delivered => accepted transfer) + pairs of real sessions judged by the property's statement and compared side by side with the model",
+            "Theorems C01_frames_roundtrip/C01_block_order/C01_block_size/C01_block_checksum/C01_delivered_means_transferred hold for every payload, proposal list and input. PARTIAL: the pair-level statement C01_exchange_statement (two model sides, Kahn iteration) is a Prop decided per run: random scenarios (0..12 messages each way, all policies, MOTD, batched/unbatched, both roles, read segmentation from 1 byte) run on two real sessions, the statement evaluated on the handlers' logs and results, and each real side compared with the model side fed with its peer's actual bytes.",
+            "Compression/serialisation of outbound messages is done by the real library in the harness and handed to the model as prepared proposals (C06/C09 cover them); gzip pairs are judged by the oracle only; mime.QEncoding is library code.",
+            "DESIGN.md section 6 C01"),
+    "C02": ("Coq proofs that a cut session never panics and hands over only accepted transfers + every cut position / storage error / faulty-session history replayed on real sessions with the property's safety and convergence statements as oracle",
+            "Theorems C02_cut_no_panic and C02_intact hold for every configuration, stream and cut position. PARTIAL: the safety statement proper (reported sent => completely received) and convergence are Props decided per run: every cut position (quick: strided plus all positions near line ends, EOTs and the end; thorough: all) of recorded exchanges in both directions on two real sessions, ProcessInbound failing at each inbound message, 25 (300) histories of faulty sessions followed by a clean one on the reference handler with de-duplication, and 15 (150) on the real directory mailbox; the side that sees exactly k bytes is compared with the model side on that prefix.",
+            "The cutting side's own input depends on goroutine timing and is judged by the oracle only; DirHandler.SetSent's log.Fatalf is outside the histories (it is only reached when a file disappears).",
+            "DESIGN.md section 6 C02"),
+    "C03": ("Coq proof that the model of Exchange never reaches a panic for any configuration and any received bytes + real sessions on mutated transcripts, damaged payloads and arbitrary bytes under watchdog, allocation bound and address-space limit, compared with the model",
+            "Theorem C03_no_panic holds for every configuration and every byte sequence: each index/slice of the Go code on remote data is a checked operation of the model and is shown unreachable out of range (after seven fix: commits). PARTIAL: termination within the linear fuel and the result classes are Props decided per run: 2500 (40000) mutations of recorded transcripts at every layer, scripted masters with damaged compressed payloads and damaged messages (negative/huge sizes), arbitrary bytes, both roles; oracle: returns, no panic, connection closed, allocation bound; wire bytes, callbacks, stats and result class compared with the model.",
+            "The model stands for the code through the correspondence; bufio/fmt/strconv/strings semantics are modelled (UTF-8 rune sums and Unicode TrimSpace included); memory use is observed, not proved.",
+            "DESIGN.md section 6 C03"),
+    "C04": ("Coq proof that every message handed to the inbound handler passed the frame checks, the LZHUF Close (CRC-16, size) and the message parser, for all inputs + every single-byte alteration of the SOH..EOT range replayed on real receiver and sender",
+            "Theorems C04_integrity/C04_payload/C04_frames/C04_unaltered_accepted hold for every configuration and every received byte sequence. The per-run check alters each transfer at every offset (substitution, deletion, insertion, checksum-compensating pairs), feeds it to a real slave session and the slave's answers to a real master: a delivered message must be byte-identical to the queued one and the sender may record it sent only if it was delivered; the receiver is compared with the model on the same bytes.",
+            "That CRC-16 plus size detect a given corruption is a property of the code (probabilistic for compensating changes), checked per run; 'alterations an independent reference also accepts' are those that leave the payload bytes intact (e.g. in the title).",
+            "DESIGN.md section 6 C04"),
 }
 
 NOT_YET = {}
